@@ -153,6 +153,25 @@ func C07(r *report.Report, tier string) {
 			jobs = append(jobs, crashArg{Prop: "C07", DiskSize: 3000, Setup: c07Setup, Ops: h, Cap: cap, NoUnstable: nu, CheckVerf: true, ReadBack: true})
 		}
 	}
+	// a request that fails only when its transaction is handed to the journal (more blocks than the journal holds)
+	// between an unstable write and the COMMIT / the next stable operation
+	big := fsx.Op{K: "SYMLINK", H: "root", N: "biglink", Target: nameOfLen(520*4096, 't')}
+	uw := fsx.Op{K: "WRITE", H: "root/f", Off: 0, Cnt: 4096, Pat: 0x51, Stable: 0}
+	for _, h := range [][]fsx.Op{
+		{uw, big, {K: "COMMIT", H: "root/f"}},
+		{uw, big, {K: "SETATTR", H: "root/g", NoSize: true, Mtime: 555}},
+		{uw, big, {K: "WRITE", H: "root/g", Off: 0, Cnt: 10, Pat: 0x52, Stable: 0}, {K: "COMMIT", H: "root/g"}},
+		{big, uw, {K: "COMMIT", H: "root/f"}},
+	} {
+		jobs = append(jobs, crashArg{Prop: "C07", DiskSize: 3000, Setup: c07Setup, Ops: h, Cap: cap, CheckVerf: true, ReadBack: true, ImplFail: true, Tag: "after-oversized-symlink"})
+	}
+	// the largest write the server announces, at an unaligned offset, between an unstable write and its COMMIT (the
+	// transaction just fits into the journal; were it refused there, the history is the one above)
+	for _, h := range [][]fsx.Op{
+		{uw, {K: "WRITE", H: "root/g", Off: 1, Cnt: cntWtmax, Pat: 0x53, Stable: 0}, {K: "COMMIT", H: "root/f"}},
+	} {
+		jobs = append(jobs, crashArg{Prop: "C07", DiskSize: 3000, Setup: c07Setup, Ops: h, Cap: 16, MaxImages: 120, CheckVerf: true, ImplFail: true, Tag: "after-wtmax-write"})
+	}
 	runCrashJobs(r, jobs, map[string]bool{"C07": true})
 	// clean restarts
 	var rj []interface{}
